@@ -91,7 +91,8 @@ func (c IdentityCase) doc() []byte {
 	case "identity":
 		doc = map[string]any{"$schema": "https://gobl.org/draft-0/tax/identity", "country": c.Country, "code": c.Code}
 	case "party":
-		doc = map[string]any{"$schema": "https://gobl.org/draft-0/org/party", "name": "Party", "tax_id": id}
+		// a party on its own names its regime itself
+		doc = map[string]any{"$schema": "https://gobl.org/draft-0/org/party", "$regime": c.Country, "name": "Party", "tax_id": id}
 	default:
 		doc = map[string]any{
 			"$schema": "https://gobl.org/draft-0/bill/invoice", "$regime": "ES", "code": "ID-1", "issue_date": "2024-06-13", "currency": "EUR",
